@@ -102,6 +102,10 @@ func GenSrvHistory(r *rand.Rand, cfg *SrvGenCfg) []SEv {
 	sess := map[int]*gsess{}
 	next := 1
 	var max *spb.Uint128
+	if cfg.Srv.InjectElec != nil {
+		// the server starts out knowing an election id (seeded), with no session primary
+		max = cfg.Srv.InjectElec
+	}
 	sh := &shadow{has: map[string]bool{}}
 	ackMode := spb.SessionParameters_RIB_ACK
 	if cfg.FIB == 1 || (cfg.FIB == 2 && r.IntN(2) == 0) {
@@ -466,6 +470,9 @@ func RunSrvHistory(name string, cfg *SrvGenCfg, evs []SEv) (*Trace, error) {
 		t.Add("srv.new %s fwd=%s hook=%s %s check=0", S(cfg.Srv.Default), B(cfg.Srv.Fwd), B(cfg.Srv.Hook), LS(cfg.Srv.VRFs))
 	} else {
 		t.Add("srv.new %s fwd=%s hook=%s %s", S(cfg.Srv.Default), B(cfg.Srv.Fwd), B(cfg.Srv.Hook), LS(cfg.Srv.VRFs))
+	}
+	if cfg.Srv.InjectElec != nil {
+		t.Add("srv.inject %s", encElec(cfg.Srv.InjectElec))
 	}
 	if err := h.ObsServer(t); err != nil {
 		return t, err
